@@ -71,6 +71,10 @@ def rand_geometry(rng):
         return {}
     if r < 0.5:
         return dict(orientation="landscape")
+    m = [round(rng.uniform(0.3, 1.6), rng.choice([1, 2, 3, 5])) for _ in range(6)]
+    if r < 0.6:
+        # a standard paper with the user's own margins (many documents share the paper and differ in the margins)
+        return dict(rng.choice([{}, dict(orientation="landscape"), dict(width=8.27, height=11.69)]), margin=m)
     if r < 0.7:
         return dict(width=8.27, height=11.69)   # A4
     w = round(rng.uniform(6.0, 14.0), rng.choice([1, 2, 3]))
